@@ -242,12 +242,13 @@ func zeta_imp(s, sc float64) float64 {
   if math.Floor(s) == s {
     v := int(math.Trunc(s))
     if float64(v) == s {
-      if v < 0 {
-        if (-v & 1) == 1 {
-          return -BernoulliNumber(1-v)/float64(1-v)
-        } else {
-          return 0.0
-        }
+      if v < 0 && (-v & 1) == 0 {
+        return 0.0
+      } else if v < 0 && 1-v <= 258 {
+        return -BernoulliNumber(1-v)/float64(1-v)
+      } else if v < 0 {
+        // B_260 and beyond are not representable although zeta(-259) is:
+        // use the reflection formula below
       } else if (v & 1) == 0 {
         if ((v / 2 - 1) & 1) == 1 {
           return -math.Pow(2.0, float64(v - 1))*math.Pow(math.Pi, float64(v))*BernoulliNumber(v)/Factorial(v)
